@@ -250,7 +250,7 @@ Qed.
 
 (* what MatchRule records for a rule *)
 Definition fired_of (c : cfg) (r : rule) : fired :=
-  {| f_id := r_id r; f_log := fst (rule_flags c r); f_audit := snd (rule_flags c r); f_nmatch := r_nmatch r |}.
+  {| f_id := r_id r; f_log := fst (rule_flags c r); f_audit := snd (rule_flags c r); f_nmatch := total_matches r |}.
 
 (* steps that do not touch the logging state *)
 Definition same_log (t t' : tx) : Prop :=
@@ -346,12 +346,76 @@ Qed.
 
 Definition in_phase (p : N) (r : rule) : bool := r_phase r =? p.
 
-Lemma eval_step_cases c p t r :
-  eval_step c p t r = t \/ (in_phase p r = true /\ eval_step c p t r = fire c r t).
+Lemma set_allow_same t a : same_log t (set_allow t a).
+Proof. repeat split. Qed.
+
+Lemma pre_fire_same r t : same_log t (pre_fire r t).
+Proof. apply iter_ctl_same. Qed.
+
+Lemma end_phase_same t : same_log t (end_phase t).
+Proof. unfold end_phase. destruct (t_allow t); try apply same_log_refl; apply set_allow_same. Qed.
+
+(* what a step does to the logging state: nothing, or exactly what MatchRule does for this rule *)
+Definition log_step (c : cfg) (r : rule) (t t' : tx) : Prop :=
+  t_matched t' = t_matched t ++ [fired_of c r]
+  /\ t_cbs t' = (if c_cb c && f_log (fired_of c r) then t_cbs t ++ [r_id r] else t_cbs t)
+  /\ t_audit t' = t_audit t || f_audit (fired_of c r).
+
+Lemma flow_actions_log c r w t :
+  log_step c r t (snd (flow_actions r (w, fire c r t))).
 Proof.
-  unfold eval_step, in_phase. destruct (r_phase r =? p); cbn [negb]; [|left; reflexivity].
-  destruct (is_some (t_intr t) && negb (p =? 5)); [left; reflexivity|].
-  destruct (r_nmatch r) eqn:E; [left; reflexivity|]. right. split; reflexivity.
+  destruct (fire_log c r t) as [Fm [Fc Fa]].
+  unfold flow_actions. cbn [snd].
+  assert (S : same_log (fire c r t)
+                (match r_allow r with
+                 | ANone => fire c r t
+                 | a => match t_re (fire c r t) with REOn => set_allow (fire c r t) a | _ => fire c r t end
+                 end)).
+  { destruct (r_allow r); try apply same_log_refl;
+      destruct (t_re (fire c r t)); try apply same_log_refl; apply set_allow_same. }
+  destruct S as [Sc [Sm Sa]]. unfold log_step. rewrite Sc, Sm, Sa. auto.
+Qed.
+
+Lemma eval_step_cases c p w t r :
+  same_log t (snd (eval_step c p (w, t) r))
+  \/ (in_phase p r = true /\ log_step c r t (snd (eval_step c p (w, t) r))).
+Proof.
+  assert (Core : same_log t (snd (if is_some (r_marker r) then (w, t) else
+              match r_nmatch r with
+              | O => (w, t)
+              | S _ => if chain_ok r then flow_actions r (w, fire c r t) else (w, pre_fire r t)
+              end))
+            \/ (is_some (r_marker r) = false /\ log_step c r t (snd (if is_some (r_marker r) then (w, t) else
+              match r_nmatch r with
+              | O => (w, t)
+              | S _ => if chain_ok r then flow_actions r (w, fire c r t) else (w, pre_fire r t)
+              end)))).
+  { destruct (is_some (r_marker r)); [left; apply same_log_refl|].
+    destruct (r_nmatch r); [left; apply same_log_refl|].
+    destruct (chain_ok r); [right; split; [reflexivity | apply flow_actions_log] | left; apply pre_fire_same]. }
+  unfold eval_step, in_phase.
+  destruct (w_break w); [left; apply same_log_refl|].
+  destruct (is_some (t_intr t) && negb (p =? 5)); [left; apply same_log_refl|].
+  destruct (r_phase r =? p) eqn:Ep; cbn [orb negb].
+  - destruct (w_after w); [destruct (marker_is r n); left; apply same_log_refl|].
+    destruct (w_skip w); [|left; apply same_log_refl].
+    destruct (t_allow t).
+    + destruct Core as [C|[_ C]]; [left | right; split]; auto.
+    + left; apply same_log_refl.
+    + destruct (p =? 1); [left; apply same_log_refl|].
+      destruct (p =? 2); [left; apply set_allow_same|].
+      destruct Core as [C|[_ C]]; [left | right; split]; auto.
+    + destruct (negb (p =? 5)); [left; apply same_log_refl|].
+      destruct Core as [C|[_ C]]; [left | right; split]; auto.
+  - destruct (is_some (r_marker r)) eqn:Em; cbn [negb]; [|left; apply same_log_refl].
+    destruct (w_after w); [destruct (marker_is r n); left; apply same_log_refl|].
+    destruct (w_skip w); [|left; apply same_log_refl].
+    destruct (t_allow t).
+    + left; apply same_log_refl.
+    + left; apply same_log_refl.
+    + destruct (p =? 1); [left; apply same_log_refl|].
+      destruct (p =? 2); [left; apply set_allow_same|]. left; apply same_log_refl.
+    + destruct (negb (p =? 5)); left; apply same_log_refl.
 Qed.
 
 Lemma sublist_filter_cons {A} (g : A -> bool) l r rules :
@@ -360,22 +424,24 @@ Proof. intros H. cbn [filter]. destruct (g r); [apply sl_skip|]; exact H. Qed.
 
 (* one phase: the rules that fire are an order-preserving selection of the phase's rules, each
    recorded once with its flags; callbacks and audit flag follow *)
-Lemma eval_phase_log c p rules : forall t,
+Lemma eval_fold_log c p rules : forall w t,
   exists l, sublist l (filter (in_phase p) rules)
-    /\ t_matched (eval_phase c p rules t) = t_matched t ++ map (fired_of c) l
-    /\ t_cbs (eval_phase c p rules t)
+    /\ t_matched (snd (fold_left (eval_step c p) rules (w, t))) = t_matched t ++ map (fired_of c) l
+    /\ t_cbs (snd (fold_left (eval_step c p) rules (w, t)))
        = t_cbs t ++ (if c_cb c then map f_id (filter f_log (map (fired_of c) l)) else [])
-    /\ t_audit (eval_phase c p rules t) = t_audit t || existsb f_audit (map (fired_of c) l).
+    /\ t_audit (snd (fold_left (eval_step c p) rules (w, t))) = t_audit t || existsb f_audit (map (fired_of c) l).
 Proof.
-  induction rules as [|r rules IH]; intros t.
+  induction rules as [|r rules IH]; intros w t.
   - exists []. cbn. split; [apply sl_nil|]. rewrite app_nil_r, orb_false_r. repeat split.
     destruct (c_cb c); rewrite app_nil_r; reflexivity.
-  - unfold eval_phase in *. cbn [fold_left].
-    destruct (eval_step_cases c p t r) as [E|[Ep E]]; rewrite E.
-    + destruct (IH t) as [l [Hs H]]. exists l. split; [apply sublist_filter_cons; exact Hs | exact H].
-    + destruct (IH (fire c r t)) as [l [Hs [Hm [Hc Ha]]]].
-      destruct (fire_log c r t) as [Fm [Fc Fa]].
-      exists (r :: l). split.
+  - cbn [fold_left].
+    destruct (eval_step c p (w, t) r) as [w' t'] eqn:Es.
+    pose proof (eval_step_cases c p w t r) as Cs. rewrite Es in Cs. cbn [snd] in Cs.
+    destruct (IH w' t') as [l [Hs [Hm [Hc Ha]]]].
+    destruct Cs as [[Sc [Sm Sa]]|[Ep [Fm [Fc Fa]]]].
+    + exists l. split; [apply sublist_filter_cons; exact Hs|].
+      rewrite Hm, Hc, Ha, Sc, Sm, Sa. auto.
+    + exists (r :: l). split.
       { cbn [filter]. rewrite Ep. apply sl_keep. exact Hs. }
       rewrite Hm, Hc, Ha, Fm, Fc, Fa. cbn [map filter existsb].
       rewrite <- !app_assoc. cbn [app]. repeat split.
@@ -383,6 +449,19 @@ Proof.
         -- destruct (f_log (fired_of c r)); cbn [map app]; rewrite <- ?app_assoc; reflexivity.
         -- reflexivity.
       * rewrite orb_assoc. reflexivity.
+Qed.
+
+Lemma eval_phase_log c p rules : forall t,
+  exists l, sublist l (filter (in_phase p) rules)
+    /\ t_matched (eval_phase c p rules t) = t_matched t ++ map (fired_of c) l
+    /\ t_cbs (eval_phase c p rules t)
+       = t_cbs t ++ (if c_cb c then map f_id (filter f_log (map (fired_of c) l)) else [])
+    /\ t_audit (eval_phase c p rules t) = t_audit t || existsb f_audit (map (fired_of c) l).
+Proof.
+  intros t. unfold eval_phase.
+  destruct (eval_fold_log c p rules flow0 t) as [l [Hs [Hm [Hc Ha]]]].
+  destruct (end_phase_same (snd (fold_left (eval_step c p) rules (flow0, t)))) as [Sc [Sm Sa]].
+  exists l. split; [exact Hs|]. rewrite Sc, Sm, Sa. auto.
 Qed.
 
 (* the phases in the order the connector calls them *)
@@ -608,12 +687,46 @@ Proof.
   destruct (intr_status r); [rewrite interrupt_parts|]; apply iter_ctl_wf, H.
 Qed.
 
+Lemma set_allow_parts t a : t_parts (set_allow t a) = t_parts t.
+Proof. reflexivity. Qed.
+
+Lemma flow_actions_parts r w t : t_parts (snd (flow_actions r (w, t))) = t_parts t.
+Proof.
+  unfold flow_actions. cbn [snd]. destruct (r_allow r); try reflexivity; destruct (t_re t); reflexivity.
+Qed.
+
+Lemma eval_step_wf c p w t r :
+  wf_parts (t_parts t) = true -> wf_parts (t_parts (snd (eval_step c p (w, t) r))) = true.
+Proof.
+  intros H.
+  assert (Core : wf_parts (t_parts (snd (if is_some (r_marker r) then (w, t) else
+              match r_nmatch r with
+              | O => (w, t)
+              | S _ => if chain_ok r then flow_actions r (w, fire c r t) else (w, pre_fire r t)
+              end))) = true).
+  { destruct (is_some (r_marker r)); [exact H|]. destruct (r_nmatch r) eqn:En; [exact H|].
+    destruct (chain_ok r); [rewrite flow_actions_parts; apply fire_wf, H | apply iter_ctl_wf, H]. }
+  unfold eval_step.
+  destruct (w_break w); [exact H|].
+  destruct (is_some (t_intr t) && negb (p =? 5)); [exact H|].
+  destruct (negb ((r_phase r =? p) || is_some (r_marker r))); [exact H|].
+  destruct (w_after w); [destruct (marker_is r n); exact H|].
+  destruct (w_skip w); [|exact H].
+  destruct (t_allow t); try exact Core; try exact H.
+  - destruct (p =? 1); [exact H|]. destruct (p =? 2); [exact H | exact Core].
+  - destruct (negb (p =? 5)); [exact H | exact Core].
+Qed.
+
 Lemma eval_phase_wf c p rules t :
   wf_parts (t_parts t) = true -> wf_parts (t_parts (eval_phase c p rules t)) = true.
 Proof.
-  revert t. induction rules as [|r rules IH]; intros t H; [exact H|].
-  unfold eval_phase in *. cbn [fold_left]. apply IH.
-  destruct (eval_step_cases c p t r) as [E|[_ E]]; rewrite E; [exact H | apply fire_wf, H].
+  intros H. unfold eval_phase.
+  assert (G : forall w t0, wf_parts (t_parts t0) = true ->
+              wf_parts (t_parts (snd (fold_left (eval_step c p) rules (w, t0)))) = true).
+  { induction rules as [|r rules IH]; intros w t0 H0; [exact H0|].
+    cbn [fold_left]. destruct (eval_step c p (w, t0) r) as [w' t'] eqn:Es.
+    apply IH. pose proof (eval_step_wf c p w t0 r H0) as W. rewrite Es in W. exact W. }
+  unfold end_phase. destruct (t_allow _); try apply G; try exact H.
 Qed.
 
 Lemma gated_wf c p rules (g : bool) t tin :
@@ -1005,4 +1118,51 @@ Proof.
     clear - Hi. induction ps as [|y ps IH]; [contradiction|]. cbn [au_count].
     destruct Hi as [->|Hi]; [rewrite N.eqb_refl; lia|]. destruct (y =? x); [lia | auto].
   - apply IH. intros p. specialize (G p). cbn [au_count] in G. destruct (x =? p); lia.
+Qed.
+
+(* ------------------------------------------------------------------------------------------ *)
+(* 9. rule flow: what is never recorded                                                         *)
+(* ------------------------------------------------------------------------------------------ *)
+
+(* a rule whose chain did not match entirely, a SecMarker, a rule that matched nothing: no MatchRule, hence
+   no callback, no audit flag, no message (only the head's non-disruptive actions may have run) *)
+Lemma step_unrecorded c p w t r :
+  chain_ok r = false \/ is_some (r_marker r) = true \/ r_nmatch r = 0%nat ->
+  same_log t (snd (eval_step c p (w, t) r)).
+Proof.
+  intros H.
+  assert (Core : same_log t (snd (if is_some (r_marker r) then (w, t) else
+              match r_nmatch r with
+              | O => (w, t)
+              | S _ => if chain_ok r then flow_actions r (w, fire c r t) else (w, pre_fire r t)
+              end))).
+  { destruct (is_some (r_marker r)) eqn:Em; [apply same_log_refl|].
+    destruct (r_nmatch r) eqn:En; [apply same_log_refl|].
+    destruct (chain_ok r) eqn:Ec; [|apply pre_fire_same].
+    destruct H as [H|[H|H]]; discriminate. }
+  unfold eval_step.
+  destruct (w_break w); [apply same_log_refl|].
+  destruct (is_some (t_intr t) && negb (p =? 5)); [apply same_log_refl|].
+  destruct (negb ((r_phase r =? p) || is_some (r_marker r))); [apply same_log_refl|].
+  destruct (w_after w); [destruct (marker_is r n); apply same_log_refl|].
+  destruct (w_skip w); [|apply same_log_refl].
+  destruct (t_allow t); try exact Core; try apply same_log_refl.
+  - destruct (p =? 1); [apply same_log_refl|]. destruct (p =? 2); [apply set_allow_same | exact Core].
+  - destruct (negb (p =? 5)); [apply same_log_refl | exact Core].
+Qed.
+
+(* a rule reached while Skip > 0, while a SkipAfter marker is pending, after the loop was left, or after
+   a real interruption outside the logging phase, is not evaluated at all *)
+Lemma step_skipped c p w t r :
+  w_break w = true \/ (w_skip w <> 0)%nat \/ w_after w <> None \/ (is_some (t_intr t) = true /\ p <> 5) ->
+  snd (eval_step c p (w, t) r) = t.
+Proof.
+  intros H. unfold eval_step.
+  destruct (w_break w) eqn:Eb; [reflexivity|].
+  destruct (is_some (t_intr t) && negb (p =? 5)) eqn:Ei; [reflexivity|].
+  destruct (negb ((r_phase r =? p) || is_some (r_marker r))); [reflexivity|].
+  destruct (w_after w) eqn:Ea; [destruct (marker_is r n); reflexivity|].
+  destruct (w_skip w) eqn:Es; [|reflexivity].
+  exfalso. destruct H as [H|[H|[H|[H1 H2]]]]; try discriminate; try contradiction.
+  rewrite H1 in Ei. cbn [andb] in Ei. apply negb_false_iff in Ei. apply N.eqb_eq in Ei. contradiction.
 Qed.
